@@ -531,7 +531,7 @@ func runScenario(s *bScript, tr int, slow int) *trace.Log {
 	if subpar <= 0 {
 		subpar = 10
 	}
-	log.Add("config", "script", s.ID, "family", s.Family, "window", window, "queue", inner.SessionQueueSize, "pubpar", pubpar, "subpar", subpar,
+	log.Add("config", "script", s.ID, "family", s.Family, "token_ms", int(inner.ClientTokenTimeout/time.Millisecond), "window", window, "queue", inner.SessionQueueSize, "pubpar", pubpar, "subpar", subpar,
 		"ackmode", s.Config.AckMode, "auth", s.Config.Creds != nil)
 
 	if s.Mode == "concurrent" {
